@@ -11,10 +11,10 @@ ENTRY = dict(
             "`completes` (after the sensor data, `retries` timer expiries always end in 'loaded'), `loaded_within` (not later than sensors + retries x timeout), "
             "`errors_exact` (frame_errors = exactly the kinds whose data was not available at that moment, in table order; `loading_snapshot` pins the moment), "
             "`unanswered_listed`, `answered_not_listed` (product answered => no answered kind listed), `independent_answered_not_listed`, "
-            "`failed_transmitted_R_times`, `transmitted_at_most_R_times`, `data_available` / `answered_data_available`; `ecomax_cfg` ties the configuration "
+            "`failed_transmitted_R_times`, `transmitted_at_most_R_times`, `data_available` / `answered_data_available`, `failed_loaded_at_deadline`; `versions_before_setup_irrelevant` (frame-versions tables handled before / during / after set-up only add the versions handler's own requests: phase, load time, error list and the per-kind set-up transmissions are those of the history without them); `holds`: the executable statement C16.spec accepts the observation (`observe`) of every history of the machine, for every well-formed configuration (`ecomax_wf`); `ecomax_cfg` ties the configuration "
             "(8 requests, product first, 3 x 3 s, which handlers await product information) to the generated tables. "
             "The machine is tied to devices/__init__.py and devices/ecomax.py by running the real async_setup with answers injected through device.handle_frame(<response bytes>) "
-            "at chosen virtual times: the 256 subsets, all 4^8 (subset x attempt) patterns in the thorough tier, variants and free-form histories; C16.spec is judged by the Lean driver "
+            "at chosen virtual times: the 256 subsets, all 4^8 (subset x attempt) patterns in the thorough tier, a frame-versions table (every subset of the eight kinds) handled before the sensor data, variants and free-form histories; C16.spec is judged by the Lean driver "
             "on every implementation observation."),
         level_note="Trusted: Lean kernel; Setup machine <-> code tie is differential; asyncio (wait_for, gather, Event, timers) exercised, not modelled; "
                    "an answer never carries the same virtual timestamp as a timeout (quantised).",
@@ -25,6 +25,8 @@ ENTRY = dict(
             "each unanswered request transmitted `retries` times": "theorem (failed_transmitted_R_times, transmitted_at_most_R_times)",
             "data of every answered request available": "theorem (data_available, answered_data_available) for the model's availability; decoded content by correspondence (names present in device.data)",
             "8 requests, product first, 3 attempts x 3 s, handlers that await product information": "table (ecomax_cfg) + correspondence (which handlers block)",
+            "the frame-versions handler's requests do not replace or disturb the set-up requests": "theorem (versions_before_setup_irrelevant) + correspondence (regulator-data message with a version table before / during / after set-up)",
+            "the judge applied to the implementation accepts every run of the machine": "theorem (holds)",
             "all 2^8 subsets x attempt of each answer": "theorem (histories universally quantified) + exhaustive correspondence (65536 patterns, thorough tier)",
         },
         assumptions=COMMON_ASSUME + [
